@@ -1,5 +1,4 @@
 pub mod gen_curves;
 pub mod gen_fields;
-pub mod gen_literals;
 pub mod gen_towers;
 pub mod gen_toybn;
